@@ -225,6 +225,9 @@ struct Scenario {
           if (other_traffic) continue;
           int64_t waited = (b->t - a->t) / 1000;
           r.counters["c06.timeout_waits_checked"]++;
+          // time the application spends inside a completion callback is not waiting time the library could have given the attempt: the library
+          // reads the clock once per processing call, so a re-send made after a slow callback gets its deadline counted from before the callback
+          if (S.slow_total_us > 0 && waited < base) { r.counters["c06.waits_shortened_by_slow_callbacks"]++; continue; }
           if (waited < base) fail(r, "C06.wait-below-base-timeout", "wire query " + kv.first + ": attempt " + std::to_string(i) + " to server " + std::to_string(a->server) + " got no reply and was retried after " + std::to_string(waited) + "ms; base timeout is at least " + std::to_string(base) + "ms");
         } }
     }
@@ -352,7 +355,7 @@ struct Scenario {
     auto keyname = [](std::string n) { n = ref::lower(n); if (!n.empty() && n.back() == '.') n.pop_back(); return n; };
     for (auto &kv : S.reqs) { const Req &q = kv.second; if (q.calls != 1 || q.parent >= 0) continue;
       std::string ctx = "request " + std::to_string(q.id) + " (" + q.kind + " " + q.name.substr(0, 60) + ")";
-      if (q.kind == "getaddrinfo" || q.kind == "gethostbyname") {
+      if (q.kind == "getaddrinfo" || q.kind == "gethostbyname" || q.kind == "hostsfile") {
         if (q.status != ARES_SUCCESS && q.status != ARES_ECANCELLED && q.status != ARES_EDESTRUCTION && !has_faults && !has_cancel && !has_inject && !has_reconfig && S.opt.tries == 1 && w.servers.size() == 1 && q.timeouts == 0 && w.chop.empty() && w.partial.empty()) {
           // one server, one try, no faults: every sub-query got exactly one reply.  If one of them was an answer carrying addresses of a requested family, those addresses are the result
           bool killed = false; for (auto &t : w.txs) if (t.outcome == O_GARBAGE || t.outcome == O_RESET || t.outcome == O_EOFMID || t.outcome == O_TC || t.outcome == O_DELAY || t.outcome == O_SILENCE || t.outcome == O_BADCOOKIE || t.outcome == O_FORMERR || t.outcome == O_FORMERR_OPT) killed = true;
@@ -389,7 +392,16 @@ struct Scenario {
             if (got.size() != 1 || *got.begin() != want) fail(r, "C13.literal-address-differs", ctx + ": literal " + q.name + " returned " + std::to_string(got.size()) + " addresses" + (got.empty() ? "" : ", first " + *got.begin()));
             r.counters["c13.literals_checked"]++;
           }
-          if (in_hosts && !literal && k != "localhost") {
+          bool lh = k == "localhost" || (k.size() > 10 && k.compare(k.size() - 10, 10, ".localhost") == 0);
+          if (lh && !literal) {
+            // loopback rule (RFC 6761) on top of the hosts file: requested family only, every address is a loopback address or one the hosts file lists, none twice
+            std::set<std::string> listed; for (auto &l : S.hosts_lines) { auto t = split_ws(l); Addr a; if (t.size() >= 2 && Addr::parse(t[0], a)) listed.insert(std::to_string(a.family) + ":" + vf::hex(Bytes((const char *)a.b, a.family == AF_INET ? 4 : 16))); }
+            const std::string lo4 = std::to_string(AF_INET) + ":" + vf::hex(Bytes("\x7f\x00\x00\x01", 4)), lo6 = std::to_string(AF_INET6) + ":" + vf::hex(Bytes(15, '\0') + Bytes(1, '\x01'));
+            for (auto &a : q.addrs) if ((q.family == AF_INET && a.family != AF_INET) || (q.family == AF_INET6 && a.family != AF_INET6)) fail(r, "C13.wrong-family-returned", ctx + ": loopback name looked up with family " + std::to_string(q.family) + " returned an address of family " + std::to_string(a.family));
+            for (auto &x : got) { if (x != lo4 && x != lo6 && !listed.count(x)) fail(r, "C13.loopback-address-invented", ctx + ": " + x); if (got.count(x) > 1) { fail(r, "C13.loopback-address-duplicated", ctx + ": " + x + " returned " + std::to_string(got.count(x)) + " times"); break; } }
+            r.counters["c13.loopback_results_checked"]++;
+          }
+          if (in_hosts && !literal && !lh) {
             // c-ares documents that related hosts-file lines (sharing a name or an address) are merged into one entry:
             // lower bound = addresses on lines naming the host, upper bound = addresses of the merged (transitively related) lines
             std::set<std::string> names{k}, ips; std::multiset<std::string> closure; bool grew = true;
